@@ -146,6 +146,7 @@ Theorem C02_int_roundtrip : forall z t, Represent.int_text z = Some t -> Constru
 Proof. exact IntRoundTrip.int_text_roundtrip. Qed.
 Eval vm_compute in "ASSUME:C02_int_roundtrip"%string. Print Assumptions C02_int_roundtrip.
 
-(* PARTIAL (FULL: forall v opts, load (dump v opts) ~ v): only the double-quoted (the universal fallback style) and single-quoted scalar layers
-   without folding is a theorem.  Value<->node, node<->event and the other four scalar styles are decided by the
+(* PARTIAL (FULL: forall v opts, load (dump v opts) ~ v): the double-quoted, single-quoted and (block-context) plain scalar layers without
+   folding, the integer text round trip, the grammar of dumped documents and anchors-before-aliases are theorems.  Folding, flow-context plain
+   scalars, the literal and folded block styles, the other value<->node conversions and node<->event for content are decided by the
    represent/serialize/emit/scan/parse/compose/construct correspondence and the direct round-trip run. *)
